@@ -10,7 +10,7 @@ using namespace vf;
 #error "c20 must be built in the static-heap configuration"
 #endif
 
-enum HOp { H_PUSHTEXT, H_PUSH, H_ERRQ, H_POP, H_CLEAR };
+enum HOp { H_PUSHTEXT, H_PUSH, H_ERRQ, H_POP, H_CLEAR, H_POPHOLD, H_RELEASE };   // POPHOLD: pop and keep the text (a display that shows it), RELEASE: give the oldest kept text back
 struct HStep { int op; size_t len; };
 struct HCase { int cap = 2; size_t heap = 8; std::vector<HStep> steps; };
 
@@ -26,6 +26,8 @@ static std::string stepText(const HStep &s, size_t i) {
         case H_PUSH: return "push()";
         case H_ERRQ: return "SYST:ERR?";
         case H_POP: return "pop";
+        case H_POPHOLD: return "pop-and-keep";
+        case H_RELEASE: return "release-kept";
         default: return "clear";
     }
 }
@@ -46,6 +48,9 @@ static std::string runCase(const HCase &c, Hist20 *h = nullptr) {
     { Cmd q; q.pattern = "SYSTem:ERRor[:NEXT]?"; q.lib = libIndex("ERRNEXTQ"); k.cmds.push_back(q); }
     Inst I(k);
     std::deque<MEnt> model;
+    struct Held { char *ptr; std::string text; };
+    std::deque<Held> held;           // texts the application popped and has not yet given back: they stay its own until it does
+    auto readHeld = [&](char *p) { const char *p2 = nullptr; size_t l1 = 0, l2 = 0; std::string g; if (scpiheap_get_parts(&I.ctx.error_info_heap, p, &l1, &p2, &l2)) g = std::string(p, l1) + (p2 ? std::string(p2, l2) : std::string()); return g; };
     std::string fail;
     auto checkText = [&](const MEnt &e, bool has, const std::string &got, const std::function<std::string()> &whereFn) {
 #define where whereFn()
@@ -81,7 +86,7 @@ static std::string runCase(const HCase &c, Hist20 *h = nullptr) {
                     SCPI_ErrorPushEx(&I.ctx, (int16_t) e.code, tb.p, 0);
                 }
                 e.mayHaveText = !e.text.empty();
-                e.mustHaveText = model.empty() && !e.text.empty() && e.text.size() + 1 <= c.heap && e.text.size() <= 255;
+                e.mustHaveText = model.empty() && held.empty() && !e.text.empty() && e.text.size() + 1 <= c.heap && e.text.size() <= 255;
                 if (h && e.mayHaveText && wrBefore + e.text.size() + 1 > c.heap && e.text.size() + 1 <= c.heap) h->wrapStored = true;   // would wrap if stored
             }
             if ((int) model.size() == c.cap) { model.back() = MEnt{-350, "", false, false}; if (h && st.op == H_PUSHTEXT) h->rollback = true; }
@@ -111,7 +116,24 @@ static std::string runCase(const HCase &c, Hist20 *h = nullptr) {
                 scpiheap_free(&I.ctx.error_info_heap, er.device_dependent_info, false);
             }
             checkText(e, has, got, whereF);
+        } else if (st.op == H_POPHOLD) {
+            scpi_error_t er;
+            SCPI_ErrorPop(&I.ctx, &er);
+            MEnt e = model.empty() ? MEnt{0, "", false, false} : model.front();
+            if (!model.empty()) model.pop_front();
+            if (er.error_code != e.code) { fail = fmt("popped code %d, model says %d", (int) er.error_code, e.code) + where; break; }
+            std::string got; bool has = false;
+            if (er.device_dependent_info) { has = true; got = readHeld(er.device_dependent_info); held.push_back({er.device_dependent_info, got}); }
+            checkText(e, has, got, whereF);
+        } else if (st.op == H_RELEASE) {
+            if (!held.empty()) {
+                std::string now = readHeld(held.front().ptr);
+                if (now != held.front().text) { fail = "a text the application popped and still holds changed from '" + vis(held.front().text) + "' to '" + vis(now) + "' before it was given back" + where; break; }
+                scpiheap_free(&I.ctx.error_info_heap, held.front().ptr, false);
+                held.pop_front();
+            }
         } else { SCPI_ErrorClear(&I.ctx); model.clear(); }
+        for (auto &hd : held) if (fail.empty() && readHeld(hd.ptr) != hd.text) fail = "a text the application popped and still holds changed from '" + vis(hd.text) + "' to '" + vis(readHeld(hd.ptr)) + "'" + where;
         if (fail.empty() && SCPI_ErrorCount(&I.ctx) != (int) model.size()) fail = fmt("SCPI_ErrorCount is %d, model has %zu", (int) SCPI_ErrorCount(&I.ctx), model.size()) + where;
         if (fail.empty() && !I.invariant.empty()) fail = I.invariant + where;
         // (write cursor and free count are representation: out-of-heap writes are caught by the exact-size heap buffer)
@@ -119,6 +141,7 @@ static std::string runCase(const HCase &c, Hist20 *h = nullptr) {
     }
     // drain: the heap must be completely reusable afterwards
     if (fail.empty()) {
+        while (!held.empty()) { scpiheap_free(&I.ctx.error_info_heap, held.front().ptr, false); held.pop_front(); }
         SCPI_ErrorClear(&I.ctx);
         if (c.heap >= 2) {
             std::string t = uniqueText(97, std::min(c.heap - 1, (size_t) 255));
@@ -173,9 +196,15 @@ static void runEnum(const Opt &o, Ev &ev) {
 static HCase decode(Src &s) {
     HCase c; c.cap = (int) s.range(1, 4); c.heap = s.prob(1, 3) ? s.range(2, 15) : s.range(16, 256);
     int n = (int) s.range(1, 1000);
+    int kept = 0;
     for (int i = 0; i < n; i++) {
         HStep st; st.len = 0;
-        st.op = (int) s.weighted({8, 2, 4, 4, 1});
+        st.op = (int) s.weighted({8, 2, 4, 4, 1, 1, 2});
+        // the ring heap hands out space in the order it gets it back: an application gives a popped text back before it (or
+        // anyone) queues the next error with text - what it may do in between is pop, query and clear
+        if (st.op == H_PUSHTEXT) while (kept > 0) { c.steps.push_back({H_RELEASE, 0}); kept--; }
+        if (st.op == H_POPHOLD) kept++;
+        if (st.op == H_RELEASE && kept > 0) kept--;
         if (st.op == H_PUSHTEXT) st.len = std::min((size_t) 255, (size_t) (s.prob(1, 4) ? s.range(0, c.heap) : s.range(0, std::max((size_t) 1, c.heap / 3))));
         c.steps.push_back(st);
     }
